@@ -552,6 +552,45 @@ theorem two_loads_can_mix :
   simp [runStores, storesOf, storeOrder, Dir.store, wNew, wItem, Dir.getService, Dir.getWorkServiceNames,
     Dir.getWorkServices, AL.get]
 
+/-- a getter that loads its field twice is still whole **if nothing is stored between the two
+loads** (both loads see the same field): it answers like the single-load getter -/
+theorem double_load_without_store_between_is_whole (v0 : Dir) (pubs : List Dir) (k : Nat) :
+    (readNamesAt2 v0 pubs k k).map Answer.names = some (readAt v0 pubs k .workServiceNames) := by
+  simp [readNamesAt2, namesTwoLoads, readAt, Query.answer, Query.field, Dir.getWorkServiceNames]
+
+/-- more generally: whole whenever the field holds the same value at the two loads (no store of
+`workingServices` with a different view in between), whatever else the updater stored meanwhile -/
+theorem double_load_equal_field_is_whole (v0 : Dir) (pubs : List Dir) (k1 k2 : Nat)
+    (h : (runStores v0 ((storesOf pubs).take k1)).working = (runStores v0 ((storesOf pubs).take k2)).working) :
+    (readNamesAt2 v0 pubs k1 k2).map Answer.names = some (readAt v0 pubs k2 .workServiceNames) ∧
+    ∃ v ∈ v0 :: pubs, (readNamesAt2 v0 pubs k1 k2).map Answer.names = some (Query.workServiceNames.answer v) := by
+  have e : (readNamesAt2 v0 pubs k1 k2).map Answer.names = some (readAt v0 pubs k2 .workServiceNames) := by
+    simp [readNamesAt2, namesTwoLoads, readAt, Query.answer, Query.field, Dir.getWorkServiceNames, Dir.getWorkServices,
+      Dir.only, Dir.store, h]
+  refine ⟨e, ?_⟩
+  obtain ⟨v, hv, e2⟩ := read_sees_whole_view v0 pubs k2 .workServiceNames
+  exact ⟨v, hv, by rw [e, e2]⟩
+
+/-- non-vacuity: the first two stores of a publication (`members`, `typeServices`) do not touch the field -/
+example : (runStores wNew ((storesOf [({} : Dir)]).take 0)).working = (runStores wNew ((storesOf [({} : Dir)]).take 2)).working := rfl
+
+def wItem2 : Item := { name := "h", node := "n", state := 1, pid := none }
+/-- two working services -/
+def wBig : Dir := { working := [("gate", [wItem, wItem2])] }
+
+/-- **… and mixes views otherwise, although both loads are of the SAME field** (the class of
+seeded change C08-ind-m2; `two_loads_can_mix` is about two different fields): with one
+publication landing between the loads the answer is sized by one view and filled from the other —
+an empty trailing name that no view holds when the directory shrank, a panic (`none`) when it
+grew.  This is why `getter_facts_match_source` demands `length = 1` and not merely "one field". -/
+theorem double_load_of_one_field_can_mix :
+    readNamesAt2 wBig [wNew] 0 4 = some ["g", ""] ∧
+    (∀ v ∈ [wBig, wNew], some ["g", ""] ≠ some v.getWorkServiceNames) ∧
+    readNamesAt2 wNew [wBig] 0 4 = none ∧
+    (∀ v ∈ [wBig, wNew], (readNamesAt2 v [] 0 0) = some v.getWorkServiceNames) := by
+  simp [readNamesAt2, namesTwoLoads, runStores, storesOf, storeOrder, Dir.store, Dir.only, wNew, wBig, wItem, wItem2,
+    Dir.getWorkServiceNames, Dir.getWorkServices]
+
 /-! ## 5. start-up: the initial publication cannot be overtaken -/
 
 /-- publications stored one after the other leave the directory at the last one -/
@@ -740,6 +779,23 @@ theorem failed_watch_loses_pending_delete :
     look s.p.members "x" = some wNode ∧ look s.store "x" = none ∧ s.pending = [] ∧ s.watches = 2 := by
   simp [srun, sstep, writeSys, storeStep, pstep, respond, updateNodesWithSelf, updateNodes, fetched, look, wNode, wSelf,
     AL.set, AL.erase, AL.get]
+
+/-- **A failed registration leaves a live watcher** (`StartMember` returns the error of
+`registerService` *after* `startWatching()`; nothing stops the watch goroutine): the run is the
+member run without `.register` — the general theorems above quantify over such runs too, so the
+directory of the node that reported a start-up failure keeps following the store.  Witness: the
+peer `x` registers afterwards and is published next to the node itself, which the store never
+held; an own state change is then never announced (`kaTick` does nothing without a registration). -/
+theorem failed_registration_leaves_live_watcher :
+    let s := srun { store := [], p := { self := wSelf } }
+      [.fetch false, .openWatch, .write (.put "x" wNode), .deliver 1, .setState 2, .kaTick, .deliver 0]
+    look s.p.members "x" = some wNode ∧ look s.p.members "self" = some { wSelf with state := 2 } ∧
+    look s.store "self" = none ∧ s.registered = false ∧ s.pending = [] ∧
+    (∀ op ∈ [SOp.write (.put "x" wNode), .deliver 1, .setState 2, .kaTick, .deliver 0], Lossless op) := by
+  refine ⟨?_, ?_, ?_, ?_, ?_, ?_⟩
+  all_goals
+    simp [srun, sstep, writeSys, storeStep, pstep, respond, handleWatchResponse, chStep, updateNodesWithChanges, applyChange,
+      updateNodesWithSelf, updateNodes, fetched, look, wNode, wSelf, AL.set, AL.erase, AL.get, Lossless, WrWf, setSelfState]
 
 /-- **An own state change reaches the node's own directory and the store** (hence every other
 node): `UpdateClusterState` publishes nothing by itself; the next keep-alive answer makes the
